@@ -179,6 +179,7 @@ func runC13(r *fw.Run, p *fw.Program) {
 	c13Alloc(r, p, scope)
 	c13ErrVal(r, p)
 	c13NilRet(r, p, scope)
+	c13JQType(r, p, scope)
 	c13ExploreIdx(p, scope)
 }
 
@@ -297,6 +298,28 @@ func c13Pre(r *fw.Run, p *fw.Program, scope []*ssa.Function) {
 					xs, idx = y.X, y.Index
 				case *ssa.IndexAddr:
 					xs, idx = y.X, y.Index
+				}
+				// non-constant index into a fixed-size array: must be proved inside [0, len)
+				if _, isConst := idx.(*ssa.Const); !isConst {
+					at := xs.Type().Underlying()
+					if pt, ok := at.(*types.Pointer); ok {
+						at = pt.Elem().Underlying()
+					}
+					if arr, ok := at.(*types.Array); ok {
+						iv := env.At(idx, x.(ssa.Instruction).Block())
+						okIdx := !iv.LoInf && iv.Lo >= 0 && !iv.HiInf && iv.Hi < arr.Len()
+						if !okIdx && isUnsignedT(idx.Type()) {
+							if bt, ok := idx.Type().Underlying().(*types.Basic); ok && bt.Kind() == types.Uint8 && arr.Len() >= 256 {
+								okIdx = true
+							}
+						}
+						if !okIdx {
+							// loop index of `for i := range arr` / `for i := 0; i < len(arr); i++`
+							okIdx = env.Poly.Proves(x.(ssa.Instruction).Block(), fw.Cmp{P: env.Poly.Of(idx).Sub(fw.PConst(arr.Len())), Rel: fw.LT}) && env.ProvedNonNeg(idx, x.(ssa.Instruction).Block())
+						}
+						report("arridx", x.(ssa.Instruction), okIdx, "index proved inside the array", fmt.Sprintf("index %s into an array of %d elements is not proved inside [0,%d) (index out of range is an uncatchable runtime panic)", env.Poly.Of(idx).String(), arr.Len(), arr.Len()))
+					}
+					return
 				}
 				// constant index into a string (option strings such as comma[0])
 				c, isC := idx.(*ssa.Const)
